@@ -81,11 +81,14 @@ pub fn lists(thorough: bool, seed: usize) -> Vec<Vec<Vec<u8>>> {
     v
 }
 
+pub static SAFETY_ONLY: std::sync::atomic::AtomicBool = std::sync::atomic::AtomicBool::new(false);
+
 pub fn run(args: &Args) -> Report {
+    SAFETY_ONLY.store(args.get("mode", "def") == "safety", std::sync::atomic::Ordering::Relaxed);
     let thorough = args.thorough();
     let seed = args.num("seed", 0);
     let rep = Report::new(
-        "packed",
+        if args.get("mode", "def") == "safety" { "packed[safety]" } else { "packed" },
         format!("{} pattern lists (fingerprint-collision, bucket-overflow, prefix families + random), x {{leftmost-first, leftmost-longest}} x variants {:?}; haystacks of every length 0..={} (random over the list's alphabet, planted occurrences) with every span for length <= 20 and 12 sampled spans beyond",
                 lists(thorough, seed).len(), VARS, if thorough { 140 } else { 100 }),
         "case = (pattern list, kind, variant, haystack, span): Searcher::find_in and find_iter vs the leftmost definition; non-trivial = some pattern occurs".into(),
@@ -164,6 +167,26 @@ pub fn run(args: &Args) -> Report {
 }
 
 fn check(rep: &Report, var: Var, kind: Kind, pats: &[Vec<u8>], s: &Searcher, h: &[u8], st: usize, e: usize) {
+    if SAFETY_ONLY.load(std::sync::atomic::Ordering::Relaxed) {
+        // C15: exactly-sized heap allocation; no panic; reported match inside the span, valid id
+        let exact: Vec<u8> = h.to_vec().into_boxed_slice().into_vec();
+        let got = catch_unwind(AssertUnwindSafe(|| s.find_in(&exact, aho_corasick::Span { start: st, end: e }).map(cv)));
+        let ok = match &got {
+            Ok(None) => true,
+            Ok(Some(m)) => st <= m.start && m.start <= m.end && m.end <= e && m.pid < pats.len(),
+            Err(_) => false,
+        };
+        rep.case(true);
+        if !ok {
+            let vi = VARS.iter().position(|v| *v == var).unwrap();
+            rep.fail(Fail {
+                key: format!("packed-safety:{}:pats={}:hay={}:span={}..{}", kind.name(), show_pats(pats), show(h), st, e),
+                what: format!("packed {:?} ({}) on {} haystack '{}' span {}..{}: panicked or reported an out-of-range match: {:?}", var, kind.name(), show_pats(pats), show(h), st, e, got),
+                argv: vec!["packed".into(), "--mode".into(), "safety".into(), "--one-pats".into(), enc_pats(pats), "--one-hay".into(), format!("x{}", hex(h)), "--one-span".into(), format!("{},{}", st, e), "--one-kind".into(), kind.name().into(), "--one-var".into(), vi.to_string()],
+            });
+        }
+        return;
+    }
     let want = oracle::find(pats, false, kind, h, st, e, false);
     let got = catch_unwind(AssertUnwindSafe(|| s.find_in(h, aho_corasick::Span { start: st, end: e }).map(cv)));
     let mut ok = matches!(&got, Ok(g) if *g == want);
